@@ -8,8 +8,10 @@ import (
 	"context"
 	"crypto/sha256"
 	"encoding/binary"
+	"encoding/hex"
 	"fmt"
 	"os"
+	"strings"
 	"sync/atomic"
 	"testing"
 
@@ -171,8 +173,14 @@ func verifyCarrying(m ref.Tx, s int, ht int, afterGenesis bool, carry *ref.In) e
 		bare.In[s].PrevScript, bare.In[s].PrevNil, bare.In[s].PrevSats = append(pbt.Hex{}, carry.PrevScript...), false, carry.PrevSats
 	}
 	tx := ref.ToLib(bare)
-	prev := &bt.Output{Satoshis: m.In[s].PrevSats, LockingScript: bscript.NewFromBytes(append([]byte{}, m.In[s].PrevScript...))}
+	prev := &bt.Output{Satoshis: m.In[s].PrevSats, LockingScript: bscript.NewFromBytes(ref.Canary(m.In[s].PrevScript))}
 	opts := []interpreter.ExecutionOptionFunc{interpreter.WithTx(tx, s, prev)}
+	// the other documented way to hand the same things over: the scripts through WithScripts, the
+	// spent output carrying the value only (chosen by the shape of the case, so that replays agree)
+	if carry == nil && tx.Inputs[s].UnlockingScript != nil && (len(m.In[s].Unlock)+len(m.In)+s)%3 == 0 {
+		lockS := bscript.NewFromBytes(ref.Canary(m.In[s].PrevScript))
+		opts = []interpreter.ExecutionOptionFunc{interpreter.WithTx(tx, s, &bt.Output{Satoshis: m.In[s].PrevSats}), interpreter.WithScripts(lockS, tx.Inputs[s].UnlockingScript)}
+	}
 	if ht&0x40 != 0 {
 		opts = append(opts, interpreter.WithForkID())
 	}
@@ -354,19 +362,40 @@ func check(ctx *pbt.Ctx, c Case) error {
 	tx := ref.ToLib(c.Tx)
 	signedIdx := []int{s}
 	var err error
+	// The unlocker objects are the caller's and may have served another key before: in a third of
+	// the cases they first sign a throw-away transaction with a different key, then get this
+	// case's key assigned to their exported field.
+	simple, getter := &unlocker.Simple{PrivateKey: priv}, &unlocker.Getter{PrivateKey: priv}
+	if c.Salt%3 == 0 {
+		var kb [32]byte
+		binary.BigEndian.PutUint64(kb[24:], c.Salt|1)
+		other, otherPub := bec.PrivKeyFromBytes(bec.S256(), kb[:])
+		simple, getter = &unlocker.Simple{PrivateKey: other}, &unlocker.Getter{PrivateKey: other}
+		warm := bt.NewTx()
+		_ = warm.From("11"+strings.Repeat("00", 31), 0, hex.EncodeToString(p2pkh(otherPub.SerialiseCompressed())), 1000)
+		_ = warm.From("22"+strings.Repeat("00", 31), 1, hex.EncodeToString(p2pkh(otherPub.SerialiseCompressed())), 1000)
+		if werr := warm.FillAllInputs(context.Background(), getter); werr != nil {
+			harnessError("warm-up FillAllInputs: %v", werr)
+		}
+		if werr := warm.FillInput(context.Background(), simple, bt.UnlockerParams{InputIdx: 0}); werr != nil {
+			harnessError("warm-up FillInput: %v", werr)
+		}
+		simple.PrivateKey, getter.PrivateKey = priv, priv
+		ctx.Label("unlocker_object_served_another_key_before")
+	}
 	switch c.Path {
 	case "FillInput":
-		err = tx.FillInput(context.Background(), &unlocker.Simple{PrivateKey: priv}, bt.UnlockerParams{InputIdx: uint32(s), SigHashFlags: flag})
+		err = tx.FillInput(context.Background(), simple, bt.UnlockerParams{InputIdx: uint32(s), SigHashFlags: flag})
 	case "FillInputDefault":
 		if ht != 0x41 {
 			harnessError("FillInputDefault with type 0x%02x", ht)
 		}
-		err = tx.FillInput(context.Background(), &unlocker.Simple{PrivateKey: priv}, bt.UnlockerParams{InputIdx: uint32(s)})
+		err = tx.FillInput(context.Background(), simple, bt.UnlockerParams{InputIdx: uint32(s)})
 	case "FillAllInputs":
 		if ht != 0x41 {
 			harnessError("FillAllInputs with type 0x%02x", ht)
 		}
-		err = tx.FillAllInputs(context.Background(), &unlocker.Getter{PrivateKey: priv})
+		err = tx.FillAllInputs(context.Background(), getter)
 		signedIdx = signedIdx[:0]
 		for i := range c.Tx.In {
 			signedIdx = append(signedIdx, i)
